@@ -191,6 +191,7 @@ func (c *Ctx) RuleWalkSkip() *Result {
 			continue
 		}
 		for _, cb := range c.perFileCallbacks(cmd) {
+			cb = unwrapBound(cb)
 			res.Instances++
 			key := load.FnName(cb) + ":SkipDir/SkipAll"
 			bad := ""
@@ -573,7 +574,6 @@ func sameEntry(a, b ssa.Value) bool {
 // length guard or by the known length of every argument.
 func (c *Ctx) RuleIdxParam() *Result {
 	res := &Result{Rule: "IDX-PARAM", MinInst: 1}
-	tab := c.Rx()
 	scope := c.reachFromNamed(func(n string) bool { return n == "(*regex/operators.Operator).Run" })
 	for _, fn := range c.P.RepoFns {
 		if !scope[load.FnName(fn)] {
@@ -641,20 +641,7 @@ func (c *Ctx) RuleIdxParam() *Result {
 						continue
 					}
 					callers++
-					a := cc.Args[pi]
-					minLen := int64(-1)
-					if sl, ok := a.(*ssa.Slice); ok && sl.High == nil {
-						lo := int64(0)
-						if sl.Low != nil {
-							lo, _ = constInt(sl.Low)
-						}
-						if sc, _, recv, _, ok := regexpCall(asInstr(sl.X)); ok {
-							_ = sc
-							if pat, _ := tab.Resolve(recv); pat != nil && knownNonEmpty(c.factsAt(e.Site), sl.X) {
-								minLen = int64(pat.NumCap()) + 1 - lo
-							}
-						}
-					}
+					minLen := c.sliceMinLen(cc.Args[pi], e.Site, e.Caller, 0)
 					if minLen <= k {
 						problems = append(problems, fmt.Sprintf("%s passes a slice whose length is not known to exceed %d", load.FnName(e.Caller), k))
 					}
@@ -681,7 +668,11 @@ func (c *Ctx) templateOne(res *Result, fn *ssa.Function, call *ssa.Call, m strin
 	pos := c.P.InstrPos(call)
 	tmpl := tmplV
 	var problems []string
-	for _, op := range stringOperands(stripConv(tmpl), 0) {
+	ops := stringOperands(stripConv(tmpl), 0)
+	if _, args, argFn, twhy := c.templateShape(tmpl, fn, 0); twhy == "" {
+		ops, fn = args, argFn
+	}
+	for _, op := range ops {
 		if _, isC := constString(op); isC {
 			continue
 		}
@@ -897,31 +888,32 @@ func (c *Ctx) RuleFlagPattern() *Result {
 			if !ok {
 				return
 			}
-			p, _ := c.Rx().Resolve(recv)
-			if p == nil || !strings.HasPrefix(p.Src, `\(\?`) || strings.HasPrefix(p.Src, `\(\?:`) {
-				return
-			}
-			res.Instances++
-			key := load.FnName(fn) + ":flag group pattern " + p.Src
-			closer := `:`
-			if strings.HasSuffix(p.Src, `\)`) {
-				closer = `\)`
-			}
-			want, _ := rx.FullPattern("flag groups the printer emits", `\(\?(?:[imsU]+(?:-[imsU]+)?|-[imsU]+)`+closer)
-			have, err := rx.Full(p.Src, p.Re)
-			if err != nil {
-				res.undecided(key, c.P.InstrPos(call), err.Error())
-				return
-			}
-			q := &rx.Query{Langs: []*rx.Lang{want, have}, Excluded: none, Accept: func(m []bool) bool { return m[0] && !m[1] }}
-			r, err := q.Run()
-			switch {
-			case err != nil:
-				res.undecided(key, c.P.InstrPos(call), err.Error())
-			case r.Found:
-				res.bad(key, c.P.InstrPos(call), fmt.Sprintf("regexp/syntax can print the flag group %q, which this pattern does not match: the inline flag group survives in the generated regex", r.Witness))
-			default:
-				res.ok(key, c.P.InstrPos(call), "matches every (?flags"+strings.TrimPrefix(closer, `\`)+" spelling the printer can emit (language inclusion)")
+			for _, p := range c.ResolveAll(recv, fn, 0) {
+				if !strings.HasPrefix(p.Src, `\(\?`) || strings.HasPrefix(p.Src, `\(\?:`) {
+					continue
+				}
+				res.Instances++
+				key := load.FnName(fn) + ":flag group pattern " + p.Src
+				closer := `:`
+				if strings.HasSuffix(p.Src, `\)`) {
+					closer = `\)`
+				}
+				want, _ := rx.FullPattern("flag groups the printer emits", `\(\?(?:[imsU]+(?:-[imsU]+)?|-[imsU]+)`+closer)
+				have, err := rx.Full(p.Src, p.Re)
+				if err != nil {
+					res.undecided(key, c.P.InstrPos(call), err.Error())
+					continue
+				}
+				q := &rx.Query{Langs: []*rx.Lang{want, have}, Excluded: none, Accept: func(m []bool) bool { return m[0] && !m[1] }}
+				r, err := q.Run()
+				switch {
+				case err != nil:
+					res.undecided(key, c.P.InstrPos(call), err.Error())
+				case r.Found:
+					res.bad(key, c.P.InstrPos(call), fmt.Sprintf("regexp/syntax can print the flag group %q, which this pattern does not match: the inline flag group survives in the generated regex", r.Witness))
+				default:
+					res.ok(key, c.P.InstrPos(call), "matches every (?flags"+strings.TrimPrefix(closer, `\`)+" spelling the printer can emit (language inclusion)")
+				}
 			}
 		})
 	}
@@ -1169,6 +1161,56 @@ func (c *Ctx) RuleProcStart() *Result {
 	return res
 }
 
+// sliceMinLen: a lower bound for the length of the slice a at instruction at of
+// function in: the tail of a successful submatch of a resolved pattern, or a
+// parameter whose every caller passes such a slice. -1 when unknown.
+func (c *Ctx) sliceMinLen(a ssa.Value, at ssa.Instruction, in *ssa.Function, depth int) int64 {
+	if depth > 3 {
+		return -1
+	}
+	switch x := a.(type) {
+	case *ssa.Slice:
+		if x.High != nil {
+			return -1
+		}
+		lo := int64(0)
+		if x.Low != nil {
+			lo, _ = constInt(x.Low)
+		}
+		if _, _, recv, _, ok := regexpCall(asInstr(x.X)); ok {
+			if pat, _ := c.Rx().Resolve(recv); pat != nil && knownNonEmpty(c.factsAt(at), x.X) {
+				return int64(pat.NumCap()) + 1 - lo
+			}
+		}
+	case *ssa.Parameter:
+		pi := paramIndex(in, x)
+		if pi < 0 {
+			return -1
+		}
+		min := int64(-1)
+		n := 0
+		for _, e := range c.Graph().In[in] {
+			cc := callCommon(e.Site)
+			if cc == nil || staticFn(cc) != in || pi >= len(cc.Args) {
+				continue
+			}
+			n++
+			l := c.sliceMinLen(cc.Args[pi], e.Site, e.Caller, depth+1)
+			if l < 0 {
+				return -1
+			}
+			if min < 0 || l < min {
+				min = l
+			}
+		}
+		if n == 0 {
+			return -1
+		}
+		return min
+	}
+	return -1
+}
+
 // ---------- REC-BOUND (C19: "never loops") ----------
 
 // sccs of the repository call graph restricted to set (Tarjan).
@@ -1243,7 +1285,7 @@ func (c *Ctx) sccs(set map[*ssa.Function]bool) [][]*ssa.Function {
 // descriptor limit and the run ends in the deliberate "cannot open file"
 // diagnostic).
 func (c *Ctx) RuleRecBound() *Result {
-	res := &Result{Rule: "REC-BOUND", MinInst: 2}
+	res := &Result{Rule: "REC-BOUND", MinInst: 1}
 	g := c.Graph()
 	var roots []*ssa.Function
 	for _, fn := range c.P.RepoFns {
@@ -1651,6 +1693,7 @@ func (c *Ctx) RuleWalkFilter(commands ...string) *Result {
 		}
 		policy := walkFilterPolicy[name]
 		for _, cb := range c.perFileCallbacks(cmd) {
+			cb = unwrapBound(cb)
 			if len(cb.Blocks) == 0 {
 				continue
 			}
@@ -1762,6 +1805,82 @@ func (c *Ctx) RuleWalkFilter(commands ...string) *Result {
 				res.bad(key, c.P.FnPos(cb), bad)
 			} else {
 				res.ok(key, c.P.FnPos(cb), "an entry is skipped only when it is a directory, the walk failed, a pattern did not match or every name test of the policy failed")
+			}
+		}
+	}
+	return res
+}
+
+// ---------- WALK-ERR ----------
+
+// RuleWalkErr (C16): the error a directory walk hands to its callback is a
+// failure like any other: on the side of a test that found it non-nil (or of
+// a specific kind) every path fails - returns a non-nil error, exits loudly or
+// records a failure. Returning nil there makes the walk continue and the
+// command succeed although part of the tree could not be read.
+func (c *Ctx) RuleWalkErr() *Result {
+	res := &Result{Rule: "WALK-ERR", MinInst: 4}
+	seen := map[*ssa.Function]bool{}
+	for _, cmd := range c.Commands().Commands {
+		for _, cb := range c.perFileCallbacks(cmd) {
+			cb = unwrapBound(cb)
+			if seen[cb] || len(cb.Blocks) == 0 {
+				continue
+			}
+			seen[cb] = true
+			var errParam *ssa.Parameter
+			for _, p := range cb.Params {
+				if isErrorType(p.Type()) {
+					errParam = p
+				}
+			}
+			if errParam == nil {
+				continue
+			}
+			key := load.FnName(cb) + ":error handed in by the walk"
+			tests, bad := 0, ""
+			for _, r := range referrers(errParam) {
+				var cond ssa.Value
+				nonNilWhenTrue := true
+				switch x := r.(type) {
+				case *ssa.BinOp:
+					_, trueMeansNil, isTest := nilTest(x)
+					if !isTest {
+						continue
+					}
+					cond, nonNilWhenTrue = x, !trueMeansNil
+				case *ssa.Call:
+					if !isFn(staticCallee(&x.Call), "errors", "Is") {
+						continue
+					}
+					cond = x
+				default:
+					continue
+				}
+				for _, br := range condBranches(cond) {
+					tests++
+					succ := 0
+					if nonNilWhenTrue == br.neg {
+						succ = 1
+					}
+					blk := br.iff.Block()
+					env := newEnvAt(blk)
+					env.facts[errParam] = nonNil
+					target := blk.Succs[succ]
+					env.enter(target, blk)
+					if ok, _, off := c.loudFrom(target, env, map[ssa.Value]bool{errParam: true}); !ok && bad == "" {
+						bad = fmt.Sprintf("the walk reported an error (test at %s) and the callback goes on as if nothing happened: %s", c.P.InstrPos(br.iff), off)
+					}
+				}
+			}
+			if tests == 0 {
+				continue
+			}
+			res.Instances++
+			if bad != "" {
+				res.bad(key, c.P.FnPos(cb), bad)
+			} else {
+				res.ok(key, c.P.FnPos(cb), fmt.Sprintf("%d test(s) of the walk's error; the failing side returns it, exits loudly or records a failure on every path", tests))
 			}
 		}
 	}
